@@ -435,6 +435,7 @@ def run_steps(ctx, binp, ml, profile, seed, only=None, timeout=900):
             want = None
             got = o
             susp_before = ()
+            reg_before = reg_str(reg)
             if t[0] in ("A", "AXP", "AXR"):
                 res["api_calls"] += 1
                 r, calls = spec_api(reg, trigs, int(t[1]), t[2:], {"AXP": "push", "AXR": "remove"}.get(t[0]))
@@ -481,6 +482,12 @@ def run_steps(ctx, binp, ml, profile, seed, only=None, timeout=900):
                     fl["why"] = ["the job's trigger failed (%s) when asked for the fire time after %s, so the job has to leave the registry, but it is "
                                  "still registered: %s:%s" % ([cc[2] for cc in ocalls if len(cc) == 3][-1], oparts[0].split(" ")[0].rsplit(":", 2)[1],
                                                               okey, ":".join(str(x) for x in oreg[okey]))] + fl["why"]
+                if t[0] in ("A", "AXP", "AXR") and o.startswith("E") and oreg is not None and reg_str(oreg) != reg_before \
+                        and want.split(" | ")[-1] == reg_before:
+                    fl["error_changed_registry"] = True
+                    fl["registry_before"] = reg_before
+                    fl["why"] = ["the call returned an error (%s) but the registry is not what it was before the call: before %s, after %s" % (
+                        o.split(" ")[0], reg_before, reg_str(oreg))] + fl["why"]
                 if extra:
                     fl["step_facts"] = extra
                 if t[0] == "FX":
